@@ -126,6 +126,25 @@ func TestC05(t *testing.T) {
 			}
 		}
 	}
+	// the empty message has a confounder of its own each time too (nil and empty, non-nil)
+	for _, et := range allEtypes {
+		for _, pt := range [][]byte{nil, {}} {
+			key := randKey(rng, et)
+			seen := map[string]bool{}
+			for i := 0; i < 48; i++ {
+				ct, err, pan := goEncrypt(et, key, pt, 3)
+				if err != nil || pan != "" {
+					break
+				}
+				if seen[string(ct)] {
+					v.Violate("failing-input", fmt.Sprintf("c05:confounder-repeats-empty-plaintext:et=%d", et), "two encryptions of the empty plaintext produced the same ciphertext (no fresh confounder)", map[string]string{"et": itoa(et), "key": X(key), "nil-plaintext": fmt.Sprint(pt == nil), "ct": X(ct)})
+					break
+				}
+				seen[string(ct)] = true
+			}
+			v.Case(fmt.Sprintf("fresh-empty/%d/%v", et, pt == nil), "fresh confounder for the empty plaintext")
+		}
+	}
 	c05FreshMixed(v, rng)
 	c05FreshShortReads(v, rng)
 	c05FreshConcurrent(v, rng)
